@@ -423,6 +423,73 @@ func main() {
 		emit("def skel_%s : List String := %s\n", id, lstrsNL(skeleton(fd, keep)))
 	}
 
+	// ------------------------------------------------------------------ F3b provider variants
+	// Every provider type may override the session-lifecycle methods of the generic provider the model covers.
+	// One fact per property group: the control-flow skeleton (conditions, returns, and the lifecycle / verification
+	// calls) of EVERY such override in providers/*.go, so that a change to any provider's path is seen.
+	{
+		pk := map[string]bool{}
+		for k := range keep {
+			pk[k] = true
+		}
+		for _, k := range strings.Fields(`extractRoles getAccessClaims getTenantFromToken checkTenantMatchesTenantList checkGroupOverage addGraphGroupsToSession
+			redeemRefreshToken validateToken makeOIDCHeader makeAuthorizationHeader getEmail getUser getOrgAndTeam hasOrgAndTeamAccess hasRepoAccess hasUser
+			getUserInfo getProjectInfo setProjectGroups populateSessionFromToken userInGroup fetchGroupMembership getAdminService setAllowedGroups
+			fetchPrivateKeyJWT redeemFederatedToken UnmarshalInto UnmarshalSimpleJSON Do WithContext SetHeader WithMethod WithBody Errorf Error New`) {
+			pk[k] = true
+		}
+		groups := map[string][]string{
+			"providerValidate": {"ValidateSession"},
+			"providerRefresh":  {"RefreshSession"},
+			"providerRedeem":   {"Redeem", "EnrichSession", "CreateSessionFromToken"},
+			"providerLogin":    {"GetLoginURL", "Authorize"},
+		}
+		files, _ := filepath.Glob(filepath.Join(repo, "providers", "*.go"))
+		sort.Strings(files)
+		gnames := make([]string, 0, len(groups))
+		for g := range groups {
+			gnames = append(gnames, g)
+		}
+		sort.Strings(gnames)
+		for _, g := range gnames {
+			var lines []string
+			for _, f := range files {
+				if strings.HasSuffix(f, "_test.go") {
+					continue
+				}
+				rel, _ := filepath.Rel(repo, f)
+				fs := funcs(parse(rel))
+				var names []string
+				for n := range fs {
+					names = append(names, n)
+				}
+				sort.Strings(names)
+				for _, n := range names {
+					i := strings.LastIndex(n, ".")
+					if i < 0 {
+						continue
+					}
+					for _, m := range groups[g] {
+						if n[i+1:] == m {
+							lines = append(lines, "## "+rel+" "+n)
+							lines = append(lines, skeleton(fs[n], pk)...)
+						}
+					}
+				}
+			}
+			emit("def %s : List String := %s\n", g, lstrsNL(lines))
+		}
+		// PKCE / provider-data wiring
+		for _, s := range []sk{{"providers/providers.go", "newProviderDataFromConfig"}, {"providers/providers.go", "parseCodeChallengeMethod"}, {"providers/provider_data.go", "ProviderData.LoginURLParams"},
+			{"providers/provider_default.go", "ProviderData.GetLoginURL"}, {"providers/oidc.go", "OIDCProvider.GetLoginURL"}, {"oauthproxy.go", "decodeState"}, {"oauthproxy.go", "encodeState"},
+			{"pkg/providers/oidc/provider_verifier.go", "ProviderVerifierOptions.toOIDCConfig"}, {"pkg/providers/oidc/provider_verifier.go", "ProviderVerifierOptions.toVerificationOptions"}, {"pkg/providers/oidc/provider_verifier.go", "NewProviderVerifier"},
+			{"pkg/util/util.go", "IsEndpointAllowed"}, {"pkg/util/util.go", "isHostnameAllowed"}, {"pkg/app/redirect/director.go", "appDirector.hasProxyPrefix"}, {"pkg/app/redirect/director.go", "appDirector.validateRedirect"}} {
+			fd := funcs(parse(s.rel))[s.fn]
+			id := strings.NewReplacer(".", "_").Replace(s.fn)
+			emit("def skel_%s : List String := %s\n", id, lstrsNL(skeleton(fd, pk)))
+		}
+	}
+
 	// ------------------------------------------------------------------ F4 forwarding-header readers
 	fwd := map[string]bool{"X-Forwarded-Host": true, "X-Forwarded-Proto": true, "X-Forwarded-Uri": true, "X-Forwarded-For": true,
 		"X-Real-IP": true, "X-Real-Ip": true, "X-ProxyUser-IP": true, "X-Envoy-External-Address": true, "CF-Connecting-IP": true,
